@@ -42,7 +42,7 @@ SEPS = ["\t", " ", ";"]
 
 
 def budget(tier):
-    return {"examples": 2500 if tier == "quick" else 60000, "shards": 16, "shrink": 300 if tier == "quick" else 1500}
+    return {"examples": 6000 if tier == "quick" else 80000, "shards": 16, "shrink": 300 if tier == "quick" else 1500}
 
 
 def nontrivial(labels):
